@@ -1,5 +1,6 @@
 import Driver.PrimaryOps
 import CLModel.Model.FourSq
+import CLModel.Model.Prover
 /-! model prover for primary proofs (C07: reference → library direction) -/
 open Lean CL CL.Pri
 
@@ -40,37 +41,26 @@ def proveOp (inp : Json) : Except String Json := do
   let ptapes ← (← getArr tj "preds").toList.mapM fun pj => do
     pure ({ r := ← decMap (← pj.getObjVal? "r"), uTilde := ← decMap (← pj.getObjVal? "u_tilde"),
             rTilde := ← decMap (← pj.getObjVal? "r_tilde"), alphaTilde := ← getDec pj "alpha_tilde" } : NeTape)
-  match initEqProof o common pk sig unrevealed m2Tilde tp with
-  | .ok eqInit =>
-    -- predicates
-    let mut neInits : List (NeInit Int) := []
-    for (p, t) in preds.zip ptapes do
-      match initNeProof o m fourSq pk eqInit.mTilde vals p t with
-      | .ok ni => neInits := neInits ++ [ni]
-      | .err => return Json.mkObj [("status", "err"), ("why", "predicate refused")]
-      | .panic => return Json.mkObj [("status", "panic")]
-    let tauList : List Int := eqInit.t :: neInits.flatMap (·.tauList)
-    let cList : List Int := eqInit.aPrime :: neInits.flatMap (·.cList)
-    let enc := encInt rustBackend
-    let c := hashList (tauList.map enc ++ cList.map enc ++ [enc nonce])
-    match finalizeEqProof eqInit c unrevealed revealed vals with
-    | .ok eq =>
-      let mut nes : List Json := []
-      for ni in neInits do
-        match finalizeNeProof c ni eq with
-        | .ok ne =>
-          nes := nes ++ [Json.mkObj [("u", decMapJson ne.u), ("r", decMapJson ne.r), ("mj", Json.str (toString ne.mj)),
-            ("alpha", Json.str (toString ne.alpha)), ("t", decMapJson ne.t), ("predicate", predJson ne.pred)]]
-        | _ => return Json.mkObj [("status", "err"), ("why", "finalize predicate")]
+  -- the orchestration is the model's `proveSingle` (Model/Prover.lean; C01.presentation_complete is about it)
+  let enc := encInt rustBackend
+  match proveSingle o hashList m fourSq common pk sig unrevealed revealed (preds.zip ptapes) vals m2Tilde tp (enc nonce) with
+  | .ok prf =>
+    match prf.proofs with
+    | [sp] =>
+      let eq := sp.eq
+      let nes : List Json := sp.ne.map fun ne =>
+        Json.mkObj [("u", decMapJson ne.u), ("r", decMapJson ne.r), ("mj", Json.str (toString ne.mj)),
+          ("alpha", Json.str (toString ne.alpha)), ("t", decMapJson ne.t), ("predicate", predJson ne.pred)]
       let eqJ := Json.mkObj [("revealed_attrs", decMapJson eq.revealed), ("a_prime", Json.str (toString eq.aPrime)),
         ("e", Json.str (toString eq.e)), ("v", Json.str (toString eq.v)), ("m", decMapJson eq.m), ("m2", Json.str (toString eq.m2))]
       let proof := Json.mkObj [
         ("proofs", Json.arr #[Json.mkObj [("primary_proof", Json.mkObj [("eq_proof", eqJ), ("ge_proofs", Json.arr nes.toArray)]),
                                           ("non_revoc_proof", Json.null)]]),
-        ("aggregated_proof", Json.mkObj [("c_hash", Json.str (toString c)), ("c_list", Json.arr (cList.map (fun x => bytesJson (enc x))).toArray)])]
+        ("aggregated_proof", Json.mkObj [("c_hash", Json.str (toString prf.cHash)), ("c_list", Json.arr (prf.cList.map bytesJson).toArray)])]
       return Json.mkObj [("status", "ok"), ("proof", proof)]
-    | _ => return Json.mkObj [("status", "err"), ("why", "finalize eq")]
-  | _ => return Json.mkObj [("status", "err"), ("why", "init eq")]
+    | _ => return Json.mkObj [("status", "err"), ("why", "shape")]
+  | .err => return Json.mkObj [("status", "err"), ("why", "model prover refused")]
+  | .panic => return Json.mkObj [("status", "panic")]
 
 def dispatchProve (op : String) (inp : Json) : Option (Except String Json) :=
   match op with
